@@ -10,6 +10,7 @@ import (
 	"time"
 
 	"github.com/Comcast/sheens/core"
+	"github.com/Comcast/sheens/match"
 	"github.com/Comcast/sheens/tools/expect"
 
 	"verifharness/gen"
@@ -30,6 +31,9 @@ func runOneExpect(dir string, emitter string, c gen.ExpectCase) (res string) {
 		iop := expect.IO{}
 		for _, o := range st.Outputs {
 			out := expect.Output{Pattern: gen.DeepCopy(o.Pattern), Inverted: o.Inverted}
+			if o.Stale {
+				out.Bindingss = []match.Bindings{{"?stale": true}}
+			}
 			if o.Guard != nil {
 				out.GuardSource = &core.ActionSource{Interpreter: "ecmascript", Source: o.Guard.JS()}
 			}
